@@ -62,7 +62,7 @@ pub fn plan(prop: &str) -> Vec<PlanItem> {
                 for s in ["S-mutex", "S-sem", "S-chan", "S-chan-shared", "S-event", "S-oneshot", "S-state", "S-timer"] {
                     v.push(l2o(s, 60_000, 1_500_000, vec![("p_kill", 5), ("max_kills", 2)]));
                 }
-                for s in ["T-mutex", "T-sem", "T-chan", "T-chan-shared", "T-event", "T-oneshot", "T-state", "T-timer"] {
+                for s in ["T-mutex", "T-sem", "T-chan", "T-chan-shared", "T-event", "T-oneshot", "T-state", "T-timer", "T-handles"] {
                     v.push(l3(s, 15_000, 400_000));
                 }
             }
@@ -89,6 +89,7 @@ pub fn plan(prop: &str) -> Vec<PlanItem> {
             l3("T-chan-shared", 30_000, 1_500_000),
             l3("T-oneshot", 30_000, 1_500_000),
             l3("T-state", 30_000, 1_500_000),
+            l3("T-handles", 60_000, 3_000_000),
         ],
         "C12" => vec![l1("oneshot", 400_000, 12_000_000), l2("S-oneshot", 300_000, 8_000_000), l3("T-oneshot", 60_000, 3_000_000)],
         "C13" => vec![l1("state_broadcast", 400_000, 12_000_000), l2("S-state", 300_000, 8_000_000), l3("T-state", 60_000, 3_000_000)],
